@@ -169,6 +169,80 @@ def run(ctx):
             if got.shape != want.shape or not numpy.allclose(got, want, atol=1e-9, rtol=0):
                 maxdiff = float(numpy.max(numpy.abs(got - want))) if got.shape == want.shape else -1
                 ctx.disagree(f"rdm:rank{rank}:ordering-sweep", f"rdm('{pattern}') differs from <bra|pattern|ket>, max |diff| {maxdiff}", desc)
+    # ---- number-broken (Sz-conserving) wavefunctions: numeric-index elements, bra = ket and transition, for
+    #      Sz-conserving strings that need not conserve the particle number (exact value: Spec in the convention
+    #      iota * nbTwist, driver command `expectnb`) ---------------------------------------------------------------
+    for case in range(16 if quick else 200):
+        norb = rng.choice([2, 2, 3])
+        sz = rng.randint(-norb + 1, norb - 1)
+        ket = fqe.get_spin_conserving_wavefunction(sz, norb)
+        bra = fqe.get_spin_conserving_wavefunction(sz, norb)
+        U.random_fill(ket, rng, zero_p=0.0)
+        U.random_fill(bra, rng, zero_p=0.0)
+        ek, eb = U.wfn_entries(ket), U.wfn_entries(bra)
+        for _ in range(4):
+            p, q, r_, t_ = (rng.randrange(norb) for _ in range(4))
+            form = rng.choice(["pair-create", "pair-destroy", "hop-alpha", "hop-beta", "number", "two-body"])
+            term = {"pair-create": [(2 * p, 1), (2 * q + 1, 1)], "pair-destroy": [(2 * p + 1, 0), (2 * q, 0)],
+                    "hop-alpha": [(2 * p, 1), (2 * q, 0)], "hop-beta": [(2 * p + 1, 1), (2 * q + 1, 0)],
+                    "number": [(2 * p, 1), (2 * p, 0)],
+                    "two-body": [(2 * p, 1), (2 * q + 1, 1), (2 * r_ + 1, 0), (2 * t_, 0)]}[form]
+            string = " ".join(f"{m}^" if dg else f"{m}" for m, dg in term)
+            for same in (True, False):
+                desc = {"wfn": "numberbroken", "norb": norb, "sz": sz, "pattern": string, "same_bra": same,
+                        "ket": [[a, b, [c.real, c.imag]] for a, b, c in ek], "bra": [[a, b, [c.real, c.imag]] for a, b, c in eb]}
+                try:
+                    got = complex(ket.rdm(string) if same else ket.rdm(string, brawfn=bra))
+                except Exception as exc:
+                    ctx.disagree(f"rdm-element-raises:numberbroken:{type(exc).__name__}", f"rdm('{string}') raised {exc}", desc)
+                    continue
+                e = parse_c(d.ask(f"expectnb {norb} {fmt_vec(ek if same else eb)} {fmt_vec(ek)} {fmt_op([(1.0, term)])}"))
+                ex = complex(float(e[0]), float(e[1]))
+                ctx.case(("nb-element", case, string, same) if ex != 0 else None)
+                ctx.count(f"numberbroken-element:{form}:{'diag' if same else 'transition'}")
+                if abs(got - ex) > 1e-9:
+                    ctx.disagree("rdm:numberbroken-element:" + ("diag" if same else "transition"),
+                                 f"rdm('{string}') = {got} on a number-broken wavefunction, exact {ex}", desc)
+    # ---- sector-level accessors (OpenFermion-ordered spin-orbital RDMs and their spin blocks) ---------------------
+    for case in range(4 if quick else 30):
+        norb = 2 if (quick or case % 3) else 3
+        n_ = rng.randint(1, 2 * norb - 1)
+        szs = [s_ for s_ in range(-n_, n_ + 1, 2) if (n_ + s_) // 2 <= norb and (n_ - s_) // 2 <= norb]
+        sz_ = rng.choice(szs)
+        w = fqe.Wavefunction([[n_, sz_, norb]])
+        U.random_fill(w, rng, zero_p=0.0)
+        ents = U.wfn_entries(w)
+        sec = w.sector((n_, sz_))
+        nso = 2 * norb
+        perm = [m // 2 + norb * (m % 2) for m in range(nso)]        # interleaved (OpenFermion) -> block (FQE) index
+        d1 = spec_rdm(d, norb, 0, ents, ents, "i^ j")
+        d2 = spec_rdm(d, norb, 0, ents, ents, "i^ j^ k l")
+        desc = {"norb": norb, "sector": [n_, sz_], "ket": [[a, b, [c.real, c.imag]] for a, b, c in ents]}
+        checks = []
+        try:
+            opdm, tpdm = sec.get_openfermion_rdms()
+            checks.append(("get_openfermion_rdms[0]", numpy.asarray(opdm), d1[numpy.ix_(perm, perm)]))
+            checks.append(("get_openfermion_rdms[1]", numpy.asarray(tpdm), d2[numpy.ix_(perm, perm, perm, perm)]))
+            oa, ob = sec.get_spin_opdm()
+            checks.append(("get_spin_opdm[alpha]", numpy.asarray(oa), d1[:norb, :norb]))
+            checks.append(("get_spin_opdm[beta]", numpy.asarray(ob), d1[norb:, norb:]))
+            checks.append(("get_ab_tpdm", numpy.asarray(sec.get_ab_tpdm()), d2[:norb, norb:, norb:, :norb]))
+            o1, taa = sec.get_aa_tpdm()
+            checks.append(("get_aa_tpdm[1]", numpy.asarray(taa), d2[:norb, :norb, :norb, :norb]))
+            checks.append(("get_aa_tpdm[0]", numpy.asarray(o1), d1[:norb, :norb]))
+            o2, tbb = sec.get_bb_tpdm()
+            checks.append(("get_bb_tpdm[1]", numpy.asarray(tbb), d2[norb:, norb:, norb:, norb:]))
+            if norb == 2:
+                d3 = spec_rdm(d, norb, 0, ents, ents, "i^ j^ k^ l m n")
+                checks.append(("get_three_pdm", numpy.asarray(sec.get_three_pdm()), d3[numpy.ix_(perm, perm, perm, perm, perm, perm)]))
+        except Exception as exc:
+            ctx.disagree(f"accessor-raises:{type(exc).__name__}", str(exc)[:300], desc)
+        for name, got, want in checks:
+            ctx.case(("accessor", case, name))
+            ctx.count(f"accessor:{name}")
+            if got.shape != want.shape or numpy.abs(got - want).max() > 1e-9:
+                md = float(numpy.abs(got - want).max()) if got.shape == want.shape else -1
+                ctx.disagree(f"rdm:accessor:{name.split('[')[0]}", f"{name} differs from the exact spin-orbital RDM, max |diff| {md}", desc)
     # ---- string spaces longer than the internal blocks of the rank-2 kernels (100 x 100 blocks; >= 200 strings):
     #      randomly chosen tensor elements against the exact Spec value ------------------------------------------------
     from props.C10 import int_fill
